@@ -218,9 +218,17 @@ func (w *World) Step(actor, what string) {
 	w.Sim.Park("step", actor, -1, " "+what, nil)
 }
 
+// StepWhen parks the calling actor until cond holds and the scheduler picks it.
+func (w *World) StepWhen(actor, what string, cond func() bool) {
+	w.Sim.Park("step", actor, -1, " "+what, cond)
+}
+
 // PanicLines returns the lines of the server log that report a handler panic.
 func (w *World) PanicLines() []string {
 	var out []string
+	for _, p := range w.Sim.Panics {
+		out = append(out, strings.SplitN(p, "\n", 2)[0])
+	}
 	for _, l := range strings.Split(w.ServerLog.String(), "\n") {
 		if strings.Contains(l, "panic serving") || strings.Contains(l, "panic:") {
 			out = append(out, l)
